@@ -4,4 +4,5 @@
 @include prelude_rec.rs
 @include u3_piece.vs
 @include u4_val.vs
+@include u5_key.vs
 @include u6_htx.vs
